@@ -8,8 +8,8 @@
                               loop:  x = step(x); res = |f - A x|; iterations += 1
                                      if res / res0 < tol:        return x, iterations
                                      elif iterations >= maxiter: warn; return x, inf
-                          res0 > 0 is assumed here (the quotient is undefined otherwise); a start at the exact
-                          solution is exercised separately by the harness (it must not raise).
+                              if res0 == 0: return x, 0        (start at the exact solution: nothing to do,
+                                                                step is not called; since fix 0c60b12)
    Driver = "twogrid"     twogrid(A, f, P, smoother, u0, tol, smooth_steps, maxiter):
                               loop:  smooth_steps x smoother; res = |f - A u|; coarse correction; numiter += 1
                                      if res < tol*res0: break
@@ -46,13 +46,17 @@ Reduced(res, res0, tol) == ~IsZero(res0) /\ LtS(Div(res, res0), tol)
 
 Init ==
   /\ par \in Params
-  /\ \E r0 \in (IF Driver = "iterative" THEN Res0Alphabet \ {Zero} ELSE Res0Alphabet) : st = [it |-> 0, res |-> r0, res0 |-> r0, calls |-> 0]
+  /\ \E r0 \in Res0Alphabet : st = [it |-> 0, res |-> r0, res0 |-> r0, calls |-> 0]
   /\ pc = "loop"
   /\ hist = <<>>
 
 \* ---------------------------------------------------------------- iterative_solve
+ZeroStart ==        \* if res0 == 0: return x, 0
+  /\ Driver = "iterative" /\ pc = "loop" /\ st.it = 0 /\ IsZero(st.res0)
+  /\ pc' = "converged" /\ UNCHANGED <<par, st, hist>>
+
 IterStep(rho) ==
-  /\ Driver = "iterative" /\ pc = "loop"
+  /\ Driver = "iterative" /\ pc = "loop" /\ ~IsZero(st.res0)
   /\ LET it == st.it + 1 IN
      /\ st' = [st EXCEPT !.it = it, !.res = rho, !.calls = @ + 1]
      /\ pc' = IF Reduced(rho, st.res0, par.tol) THEN "converged"
@@ -71,7 +75,7 @@ TwoGridIter(rho) ==
   /\ hist' = Append(hist, rho)
   /\ UNCHANGED par
 
-Next == \E rho \in ResAlphabet : IterStep(rho) \/ TwoGridIter(rho)
+Next == ZeroStart \/ \E rho \in ResAlphabet : IterStep(rho) \/ TwoGridIter(rho)
 Spec == Init /\ [][Next]_vars
 
 -----------------------------------------------------------------------------
@@ -80,8 +84,9 @@ Reported == IF pc = "converged" THEN st.it ELSE -1          \* -1 stands for num
 
 ConvergedMeansReduced ==
   pc = "converged" =>
-     IF Driver = "iterative" THEN /\ ~IsZero(st.res0) /\ LtS(st.res, Mul(par.tol, st.res0))
-                                  /\ st.it <= par.maxiter
+     IF Driver = "iterative" THEN \/ IsZero(st.res0) /\ st.it = 0 /\ st.calls = 0       \* already solved
+                                  \/ /\ ~IsZero(st.res0) /\ LtS(st.res, Mul(par.tol, st.res0))
+                                     /\ 1 <= st.it /\ st.it <= par.maxiter
      ELSE LtS(st.res, Mul(par.tol, st.res0))
 
 \* the loop does not run past a state that met the reduction, and stops at the limit otherwise
